@@ -153,6 +153,10 @@ def run_shard(shard, ctx):
             for ln in (65519, 65520, 65535, 65536, 65537, 131072, 200001):
                 run_case({"kind": "positive", "cipher": c, "mac": m, "kdf": KDFS[0], "rounds": 1, "salt": 16, "phrase": 1, "len": ln,
                           "layout": "one"}, ctx)
+        # configurations of exactly 1 .. 4 MiB and one byte either side (sizes in which data may be fed to a MAC or cipher)
+        for n, ln in enumerate(x * (1 << 20) + d for x in (1, 2, 3, 4) for d in (-1, 0, 1)):
+            run_case({"kind": "positive", "cipher": CIPHERS[n % 3], "mac": MACS[n % len(MACS)], "kdf": KDFS[n % 2], "rounds": 1, "salt": 16,
+                      "phrase": 1, "len": ln, "layout": "one"}, ctx)
     elif kind == "rounds-big":
         # the iteration count is whatever the key safe declares: decimal and binary round numbers +-1 up to 2,000,000
         big = [9999, 10000, 10001, 65535, 65536, 65537, 99999, 100000, 100001, 999999, 1000000, 1000001, 1048575, 1048576,
